@@ -29,11 +29,11 @@ ALL_CMDS = ("cls", "fit", "inspect", "prune", "rename", "combine", "sort", "dige
             "json2xml", "xml2json")
 TIERS = {
     # ~0.5 M states; 150 invocations
-    "quick": dict(Cmds=S(*ALL_CMDS), MeasKinds=S("unset", "first", "second", "bogus"), PatchSel={1, 2, 3, 5}, PoiSel=S("", "0.5"),
+    "quick": dict(Cmds=S(*ALL_CMDS), MeasKinds=S("unset", "first", "second", "bogus"), PatchSel={1, 2, 3, 5, 6}, PoiSel=S("", "0.5"),
                   CalcSel=S("", "asymptotics", "toybased"), Backends=S("", "numpy", "pytorch", "jax"), Optimizers=S("", "scipy", "minuit"),
                   ConfSel={1, 2, 3, 5, 7}, SelSel=set(range(1, 10)), AlgSel=set(range(1, 7)), EmitMod=1, EmitModInfer=97),
     # 3.1 M states; ~3 000 invocations
-    "thorough": dict(Cmds=S(*ALL_CMDS), MeasKinds=S("unset", "first", "second", "bogus"), PatchSel={1, 2, 3, 4, 5}, PoiSel=S("", "1.0", "0.5", "2.0"),
+    "thorough": dict(Cmds=S(*ALL_CMDS), MeasKinds=S("unset", "first", "second", "bogus"), PatchSel={1, 2, 3, 4, 5, 6}, PoiSel=S("", "1.0", "0.5", "2.0"),
                      CalcSel=S("", "asymptotics", "toybased"), Backends=S("", "numpy", "np", "pytorch", "torch", "jax"),
                      Optimizers=S("", "scipy", "minuit"), ConfSel={1, 2, 3, 4, 5, 6, 7}, SelSel=set(range(1, 10)), AlgSel=set(range(1, 7)),
                      EmitMod=1, EmitModInfer=151),
